@@ -355,25 +355,33 @@ func (e *engine) runLayout(s spec, l layout, baseOuts [][]byte, baseRes, baseObs
 			}
 		}
 		saved := cloneAll(outs)
-		// 2. retention: overwrite inputs and spare capacity, observe
+		// 2. retention: overwrite the inputs and their spare capacity one after the other, observe
+		// after each
+		prevObs := baseObs
 		for _, g := range guards {
 			g.scribble()
-		}
-		for i := range outs {
-			if !bytes.Equal(outs[i], saved[i]) {
-				add("aliased-result", "out%d-changed-when-the-inputs-were-overwritten", i)
-				saved[i] = bytes.Clone(outs[i])
+			for i := range outs {
+				if !bytes.Equal(outs[i], saved[i]) {
+					add("aliased-result", "out%d-changed-when-input-%s-was-overwritten", i, g.name)
+					saved[i] = bytes.Clone(outs[i])
+				}
+			}
+			if it.observe != nil {
+				if obs := it.observe(); obs != prevObs {
+					add("retained", "%s:%s", g.name, diffObs(prevObs, obs))
+					prevObs = obs
+				}
+			}
+			for _, h := range guards {
+				if h.changed() {
+					add("retained", "input-%s-written-after-the-call", h.name)
+					h.saved = bytes.Clone(h.buf)
+				}
 			}
 		}
-		if it.observe != nil {
+		if len(guards) == 0 && it.observe != nil {
 			if obs := it.observe(); obs != baseObs {
-				add("retained", "%s", diffObs(baseObs, obs))
-			}
-		}
-		for _, g := range guards {
-			if g.changed() {
-				add("retained", "input-%s-written-after-the-call", g.name)
-				g.saved = bytes.Clone(g.buf)
+				add("retained", "no-input:%s", diffObs(baseObs, obs))
 			}
 		}
 		var outs2 [][]byte
